@@ -432,3 +432,92 @@ impl Suite for Grid {
         Case { text, well_formed: false, label: format!("grid#{i}:{kind}:len{len}:rem{rem}:off{off}"), wrap_hint: None, meta }
     }
 }
+
+// ------------------------------------------------------------------ C04: scaled conditional-directive shapes
+
+/// k sequential / nested conditional blocks wrapping partial statements; bracket and argument stress shapes.
+pub struct Scaled {
+    pub max_k: u32,
+}
+
+impl Suite for Scaled {
+    fn len(&self) -> u64 {
+        self.max_k as u64 * 8
+    }
+    fn get(&self, i: u64) -> Case {
+        let k = (i / 8 + 1) as usize;
+        let shape = i % 8;
+        let mut t = String::new();
+        match shape {
+            0 => {
+                // sequential if/else/endif blocks, each splitting a statement
+                t.push_str("begin\n");
+                for j in 0..k {
+                    t.push_str(&format!("  X{j} := {{$ifdef A{j}}} Foo({j}) {{$else}} Bar({j}, {{$endif}} 1);\n"));
+                }
+                t.push_str("end;\n");
+            }
+            1 => {
+                // nested
+                for j in 0..k {
+                    t.push_str(&format!("{{$ifdef A{j}}} if X{j} then begin\n"));
+                }
+                t.push_str("Foo;\n");
+                for j in 0..k {
+                    t.push_str(&format!("end; {{$else}} Bar{j}; {{$endif}}\n"));
+                }
+            }
+            2 => {
+                // elseif chains
+                for j in 0..k {
+                    t.push_str(&format!("{{$if X{j}}} procedure P{j}; {{$elseif Y{j}}} function P{j}: Integer; {{$else}} var P{j}: Integer; {{$ifend}}\n"));
+                }
+            }
+            3 => {
+                // unbalanced: only openers
+                for j in 0..k {
+                    t.push_str(&format!("{{$ifdef A{j}}} begin Foo({j});\n"));
+                }
+            }
+            4 => {
+                // unbalanced: only else / endif
+                for j in 0..k {
+                    t.push_str(&format!("{{$else}} end; {{$endif}} x{j} := 1;\n"));
+                }
+            }
+            5 => {
+                // deep brackets
+                t.push_str("x := ");
+                for _ in 0..k {
+                    t.push_str("Foo(");
+                }
+                t.push('1');
+                for _ in 0..k {
+                    t.push_str(", 2)");
+                }
+                t.push_str(";\n");
+            }
+            6 => {
+                // long argument list and long expression at a narrow width
+                t.push_str("Call(");
+                for j in 0..k * 3 {
+                    t.push_str(&format!("Arg{j} + {j} * Other{j}, "));
+                }
+                t.push_str("Last);\n");
+            }
+            _ => {
+                // nested anonymous routines
+                t.push_str("x := ");
+                for j in 0..k.min(12) {
+                    t.push_str(&format!("procedure begin Foo{j}(", ));
+                }
+                t.push('1');
+                for _ in 0..k.min(12) {
+                    t.push_str("); end");
+                }
+                t.push_str(";\n");
+            }
+        }
+        Case { text: t, well_formed: false, label: format!("scaled:shape{shape}:k{k}"), wrap_hint: None, meta: Value::Null }
+    }
+}
